@@ -8,6 +8,7 @@ import DeadpoolVerif.Model.PgConfig
 import DeadpoolVerif.Model.RedisConfig
 import DeadpoolVerif.Model.Sync
 import DeadpoolVerif.Model.SyncPools
+import DeadpoolVerif.Model.RedisRecycle
 
 open DeadpoolVerif
 
@@ -582,11 +583,65 @@ def handle (d : SpState) (ws : List String) : SpState × String :=
 
 end SpDrv
 
+namespace RpDrv
+open RR
+
+def obs (p : Pool) (extra : String) : String :=
+  let st := p.pool.status
+  s!"rpobs {extra} size={st.2.1} avail={st.2.2.1} max={st.1}"
+
+def parseReply (m : Nat) (k : Nat) (t : String) : Option Reply :=
+  -- `k`: how many recycles of this get came before (each takes one ping number)
+  let n := m + k
+  match t with
+  | "right" => some (.echo (some n))
+  | "stale" => some (.echo (if n = 0 then none else some (n - 1)))
+  | "wrong" => some (.echo none)
+  | "error" => some .error
+  | "unwatcherr" => some .unwatchError
+  | "drop" => some .drop
+  | "silent" => some .silent
+  | _ => none
+
+def handle (p : Pool) (ws : List String) : Pool × String :=
+  match ws with
+  | "get" :: toks =>
+    let replies := (toks.zipIdx.filterMap fun (t, k) => parseReply p.mgr.pingNumber k t)
+    match step p.pool (.start (.get { wait := .zero, recycle := .finite })) with
+    | some s1 =>
+      let i := p.pool.ops.length
+      let (p', pings) := soloGet { p with pool := s1 } i replies 200
+      let newEvs := p'.pool.log.drop p.pool.log.length
+      let res := newEvs.findSome? fun | .result j r => if j == i then some r else none | _ => none
+      let shown := ",".intercalate (pings.map fun (id, n) => s!"{id}:{n}")
+      let (rs, w) := match res with
+        | some (.ok id) => (s!"ok:{id}", if (p'.conn id).watched then "1" else "0")
+        | some r => (SpDrv.showRes r, "-")
+        | none => ("unfinished", "-")
+      (p', obs p' s!"res={rs} pings=[{shown}] watched={w}")
+    | none => (p, "reject")
+  | ["ret", id] =>
+    match id.toNat?.bind fun id => (step p.pool (.start (.ret id))).map fun s1 => soloOther s1 p.pool.ops.length 50 with
+    | some s' => let p' := { p with pool := s' }; (p', obs p' "done")
+    | none => (p, "reject")
+  | ["take", id] =>
+    match id.toNat?.bind fun id => (step p.pool (.start (.take id))).map fun s1 => soloOther s1 p.pool.ops.length 50 with
+    | some s' => let p' := { p with pool := s' }; (p', obs p' "done")
+    | none => (p, "reject")
+  | ["watch", id] =>
+    match id.toNat? with
+    | some id => let p' := p.setConn id (p.conn id).watch; (p', obs p' "done")
+    | none => (p, "bad-op")
+  | _ => (p, "bad-op")
+
+end RpDrv
+
 structure DState where
   managed : Option State := none
   unmanaged : Option U.State := none
   sync : Option Sy.State := none
   sp : Option SpDrv.SpState := none
+  rp : Option RR.Pool := none
 
 def handle (d : DState) (line : String) : DState × Option String :=
   let ws := (line.trimAscii.toString.splitOn " ").filter (· ≠ "")
@@ -607,6 +662,16 @@ def handle (d : DState) (line : String) : DState × Option String :=
     match d.sp with
     | some st => let (st', out) := SpDrv.handle st rest; ({ d with sp := some st' }, some out)
     | none => (d, some "bad-op")
+  | "rp" :: "cfg" :: rest =>
+    match (lookup (rest.map kv) "max" "").toNat? with
+    | some n => ({ d with rp := some { pool := init { maxSize := n, rt := true } } }, some "rpobs cfg ok")
+    | none => (d, some "bad-cfg")
+  | "rp" :: rest =>
+    match d.rp with
+    | some st => let (st', out) := RpDrv.handle st rest; ({ d with rp := some st' }, some out)
+    | none => (d, some "bad-op")
+  | "rpobs" :: _ => (d, none)
+  | "rpx" :: _ => (d, none)
   | "spobs" :: _ => (d, none)
   | "spx" :: _ => (d, none)
   | "rdin" :: rest => (d, some (RdDrv.run rest))
